@@ -460,6 +460,39 @@ def run(ctx):
     rep.count_states(e.states, e.transitions)
     r6.check(not any(s_[0] == 'die' and s_[1] == 100 for s_ in b2.seen) and any(s_[0] == 'ret' for s_ in b2.seen), 'bouncexf:scan-stops-at-the-first-empty-line', bx.unit + ':bouncexf',
              'a Delivered-To look-alike in the body (after the empty line) is taken for a loop: %s' % sorted(b2.seen, key=str))
+    # only the empty line ends the header: short lines with any content (CR only, one letter) are header lines and the scan goes on
+    class BX3(BX):
+        FIRST = None
+
+        def prim_getln(self, E, x, args):
+            mp = None
+            if args[2] is not TOP and len(args[2]) == 1:
+                (a_,) = args[2]
+                if isinstance(a_, tuple) and a_[0] == '&':
+                    mp = a_[1]
+            n = g1(E, '$n', 0)
+            if n == 0:
+                st = {mp: fs(1), 'G:messline.len': fs(len(self.FIRST)), 'G:messline.s': fs(('&', 'G:messline.s[0]')), '$line': fs(len(self.FIRST)), '$n': fs(1), '$eq': TOP}
+                for i_, ch in enumerate(self.FIRST):
+                    st['G:messline.s[%d]' % i_] = fs(ord(ch))
+                return [Outcome(ret=fs(0), sets=st)]
+            if n == 1:
+                return [Outcome(ret=fs(0), sets={mp: fs(1), 'G:messline.len': fs(9), '$line': fs(9), '$n': fs(2), '$eq': TOP})]
+            return [Outcome(ret=fs(0), sets={mp: fs(0), 'G:messline.len': fs(0), '$line': fs('eof')})]
+
+        def tracked_global(self, path):
+            return path.startswith('G:messline') or super().tracked_global(path)
+    badl = []
+    for first in ('\r\n', 'X\n', ' \n', '\t\n', 'ab\n'):
+        b3 = BX3()
+        b3.FIRST = first
+        e = Engine(db, prog, b3)
+        e.run(bx, {'G:dtline.len': fs(9)})
+        rep.count_states(e.states, e.transitions)
+        if not any(s_[0] == 'die' and s_[1] == 100 and s_[2] == 9 and s_[3] == 1 for s_ in b3.seen):
+            badl.append(first)
+    r6.check(not badl, 'bouncexf:only-the-empty-line-ends-the-header', bx.unit + ':bouncexf',
+             'a header line %s above the matching Delivered-To line ends the scan: the loop is not noticed and the message is delivered again' % [repr(f_) for f_ in badl])
     bc = mainf.calls('bouncexf')
     r6.check(bool(bc) and any(c.path() == 'G:flagdoit' and t is True for c, t in mainf.guards(bc[0]) or []), 'bouncexf-under-flagdoit', mainf.unit + ':main', '')
     # sanitising loops: X.s[i] = '_' under X.s[i] == '\n' inside a loop bounded by i < X.len (same X), in main or in a helper
